@@ -552,7 +552,14 @@ impl Curve2 {
             self.count() - 1
         };
 
-        if (l1 - l0).abs() < self.tol || (!self.is_closed && wrap) {
+        // The distance travelled from l0 to l1: through the seam when the request wraps
+        let travel = if wrap {
+            self.length() - l0 + l1
+        } else {
+            l1 - l0
+        };
+
+        if travel < self.tol || (!self.is_closed && wrap) {
             None
         } else {
             let mut points = Vec::new();
